@@ -509,7 +509,7 @@ def enum_actions(meta, tier, sel):
             continue
         ns, nw = sh['ns'], sh['nw']
         for semodes in itertools.product((0, 1, 2), repeat=ns):
-            if semodes.count(2) > 1 or (2 in semodes and sh['fn'] == 'v'):
+            if semodes.count(2) > 1 or (2 in semodes and sh['fn'] in ('v', 'r')):
                 continue   # nested calls always target v; an expectation on v never nests (no call cycles)
             for wacc in itertools.product((True, False), repeat=nw):
                 if sel.skip(): continue
